@@ -234,6 +234,72 @@ Definition parse_number (span : N * N) (text : list chr) : res numeric :=
   | Literal.Err => Error span ParseRationalError
   end.
 
+(* the loop of an OPERATION node over its (operator, operand) pairs; [ev] evaluates a sub-node *)
+Definition force (ev : atree -> st -> res numeric * st) (b : delayed) (d : st) : res numeric * st :=
+  match b with DNode n => ev n d | DNum x => (Ok x, d) end.
+Definition binop_of (k : kind) : option (N * N -> numeric -> numeric -> res numeric) :=
+  match k with
+  | OP_ADD => Some op_add | OP_SUB => Some op_sub | OP_DIV => Some op_div
+  | OP_MUL | OP_IMPLICIT_MUL => Some op_mul | OP_POWER => Some op_pow
+  | _ => None
+  end.
+Fixpoint op_loop (ev : atree -> st -> res numeric * st) (span : N * N) (rest : list atree) (base : delayed) (d : st)
+  {struct rest} : res numeric * st :=
+  match rest with
+  | op :: rhs :: rest' =>
+      match akind op with
+      | OP_CAST =>
+          match eval_unit (achildren rhs) with
+          | Ok target =>
+              match force ev base d with
+              | (Ok lhs, d1) =>
+                  match factor target (snd lhs) (fst lhs) with
+                  | Some (true, v) => op_loop ev span rest' (DNum (v, target)) d1
+                  | Some (false, _) => (Error span IllegalCast, d1)
+                  | None => (Error span ConversionNotPossible, d1)
+                  end
+              | (r, d1) => (r, d1)
+              end
+          | Error s k => (Error s k, d)
+          | Panic w => (Panic w, d)
+          | Opaque => (Opaque, d)
+          end
+      | ERROR => (Error (aspan op) SyntaxError, d)
+      | k =>
+          match binop_of k with
+          | None => (Error (aspan op) (Unexpected k), d)
+          | Some fn =>
+              match ev rhs d with
+              | (Ok r, d1) =>
+                  match force ev base d1 with
+                  | (Ok b, d2) =>
+                      match fn span b r with
+                      | Ok x => op_loop ev span rest' (DNum x) d2
+                      | Error s k => (Error s k, d2)
+                      | Panic w => (Panic w, d2)
+                      | Opaque => (Opaque, d2)
+                      end
+                  | (r', d2) => (r', d2)
+                  end
+              | (r', d1) => (r', d1)
+              end
+          end
+      end
+  | _ => force ev base d
+  end.
+
+(* the arguments of a call, left to right *)
+Fixpoint args_loop (ev : atree -> st -> res numeric * st) (l : list atree) (acc : list numeric) (d : st) : res (list numeric) * st :=
+  match l with
+  | [] => (Ok acc, d)
+  | a :: r => match ev a d with
+              | (Ok v, d1) => args_loop ev r (acc ++ [v]) d1
+              | (Error s k, d1) => (Error s k, d1)
+              | (Panic w, d1) => (Panic w, d1)
+              | (Opaque, d1) => (Opaque, d1)
+              end
+  end.
+
 Fixpoint eval (fuel : nat) (t : atree) (d : st) {struct fuel} : res numeric * st :=
   match fuel with
   | O => (Panic 3, d)
@@ -243,55 +309,7 @@ Fixpoint eval (fuel : nat) (t : atree) (d : st) {struct fuel} : res numeric * st
     | OPERATION =>
         match skip_tokens (achildren t) with
         | [] => (Error span MissingNode, d)
-        | base :: rest =>
-            (fix loop (rest : list atree) (base : delayed) (d : st) {struct rest} : res numeric * st :=
-               let force (b : delayed) (d : st) : res numeric * st :=
-                 match b with DNode n => eval f n d | DNum x => (Ok x, d) end in
-               match rest with
-               | op :: rhs :: rest' =>
-                   match akind op with
-                   | OP_CAST =>
-                       match eval_unit (achildren rhs) with
-                       | Ok target =>
-                           match force base d with
-                           | (Ok lhs, d1) =>
-                               match factor target (snd lhs) (fst lhs) with
-                               | Some (true, v) => loop rest' (DNum (v, target)) d1
-                               | Some (false, _) => (Error span IllegalCast, d1)
-                               | None => (Error span ConversionNotPossible, d1)
-                               end
-                           | (r, d1) => (r, d1)
-                           end
-                       | Error s k => (Error s k, d)
-                       | Panic w => (Panic w, d)
-                       | Opaque => (Opaque, d)
-                       end
-                   | ERROR => (Error (aspan op) SyntaxError, d)
-                   | k =>
-                       match (match k with
-                              | OP_ADD => Some op_add | OP_SUB => Some op_sub | OP_DIV => Some op_div
-                              | OP_MUL | OP_IMPLICIT_MUL => Some op_mul | OP_POWER => Some op_pow
-                              | _ => None end) with
-                       | None => (Error (aspan op) (Unexpected k), d)
-                       | Some fn =>
-                           match eval f rhs d with
-                           | (Ok r, d1) =>
-                               match force base d1 with
-                               | (Ok b, d2) =>
-                                   match fn span b r with
-                                   | Ok x => loop rest' (DNum x) d2
-                                   | Error s k => (Error s k, d2)
-                                   | Panic w => (Panic w, d2)
-                                   | Opaque => (Opaque, d2)
-                                   end
-                               | (r', d2) => (r', d2)
-                               end
-                           | (r', d1) => (r', d1)
-                           end
-                       end
-                   end
-               | _ => force base d
-               end) rest (DNode base) d
+        | base :: rest => op_loop (eval f) span rest (DNode base) d
         end
     | NUMBER => (parse_number span (atext t), d)
     | WITH_UNIT =>
@@ -341,17 +359,7 @@ Fixpoint eval (fuel : nat) (t : atree) (d : st) {struct fuel} : res numeric * st
                  | arguments :: _ =>
                      if negb (kind_beq (akind arguments) FN_ARGUMENTS) then (Error span (Unexpected FN_ARGUMENTS), d)
                      else
-                       let '(rargs, d1) :=
-                         (fix args (l : list atree) (acc : list numeric) (d : st) {struct l} : res (list numeric) * st :=
-                            match l with
-                            | [] => (Ok acc, d)
-                            | a :: r => match eval f a d with
-                                        | (Ok v, d1) => args r (acc ++ [v]) d1
-                                        | (Error s k, d1) => (Error s k, d1)
-                                        | (Panic w, d1) => (Panic w, d1)
-                                        | (Opaque, d1) => (Opaque, d1)
-                                        end
-                            end) (skip_tokens (achildren arguments)) [] d in
+                       let '(rargs, d1) := args_loop (eval f) (skip_tokens (achildren arguments)) [] d in
                        match rargs with
                        | Ok argv => match builtin (atext name) with
                                     | Some fn => (fn span argv, d1)
